@@ -31,8 +31,9 @@ Go's `envParser{input, pos}` is represented by the remaining input `input[pos:]`
 
 `parseMarkerOr → parseMarkerAnd → parseMarkerExpr → parseMarkerOr` recurses on the
 same or a shorter remainder; the model takes fuel so that it is structurally recursive
-(kernel-evaluable), `parseMarker` supplies `3 * len + 3`, and
-`Props.C16.parseMarker_fuel_sufficient` shows that this never runs out.
+(kernel-evaluable); running out is a separate result (`Fuelled.outOfFuel`), `parseMarker`
+supplies `3 * len + 3`, and `Props.C16.parseMarker_fuel_sufficient` shows that this never
+runs out, for any input.
 -/
 
 namespace DepsDev.Pypi
@@ -168,10 +169,38 @@ def mkExpr (sv : Semver) (o : Nat) (l r : MarkerVar) : Outcome Marker :=
   if (l.name == extraName || r.name == extraName) && o != opEqualEqual then .err
   else pure (.expr o l r cons)
 
+/-- Result of a fuelled parser: a Go outcome, or "the fuel ran out" (which
+`Props.C16.parseMarker_fuel_sufficient` shows never happens for the fuel `parseMarker` gives). -/
+inductive Fuelled (α : Type) where
+  | done (o : Outcome α)
+  | outOfFuel
+deriving DecidableEq, Repr
+
+/-- Sequencing: continue only after a Go-level success. -/
+def Fuelled.bind {α β} (x : Fuelled α) (f : α → Fuelled β) : Fuelled β :=
+  match x with
+  | .done (.ok a) => f a
+  | .done .err => .done .err
+  | .done (.panic p) => .done (.panic p)
+  | .outOfFuel => .outOfFuel
+
+instance : Monad Fuelled where
+  pure a := .done (.ok a)
+  bind := Fuelled.bind
+
+/-- The non-parenthesised case of `parseMarkerExpr`: `marker_var marker_op marker_var`
+and the checks on the resulting expression. -/
+def parseLeaf (sv : Semver) (s : Bytes) : Outcome (Marker × Bytes) := do
+  let (l, s) ← parseMarkerVar sv s
+  let (o, s) ← parseMarkerOp s
+  let (r, s) ← parseMarkerVar sv s
+  let e ← mkExpr sv o l r
+  pure (e, s)
+
 mutual
 /-- `parseMarkerOr`. -/
-def parseMarkerOr (sv : Semver) : Nat → Bytes → Outcome (Marker × Bytes)
-  | 0, _ => .panic "fuel"
+def parseMarkerOr (sv : Semver) : Nat → Bytes → Fuelled (Marker × Bytes)
+  | 0, _ => .outOfFuel
   | fuel + 1, s => do
     let (l, s) ← parseMarkerAnd sv fuel s
     let s := skipWsp s
@@ -181,8 +210,8 @@ def parseMarkerOr (sv : Semver) : Nat → Bytes → Outcome (Marker × Bytes)
       let (r, s) ← parseMarkerOr sv fuel s
       pure (.or l r, s)
 /-- `parseMarkerAnd`. -/
-def parseMarkerAnd (sv : Semver) : Nat → Bytes → Outcome (Marker × Bytes)
-  | 0, _ => .panic "fuel"
+def parseMarkerAnd (sv : Semver) : Nat → Bytes → Fuelled (Marker × Bytes)
+  | 0, _ => .outOfFuel
   | fuel + 1, s => do
     let (l, s) ← parseMarkerExpr sv fuel s
     let s := skipWsp s
@@ -192,31 +221,27 @@ def parseMarkerAnd (sv : Semver) : Nat → Bytes → Outcome (Marker × Bytes)
       let (r, s) ← parseMarkerAnd sv fuel s
       pure (.and l r, s)
 /-- `parseMarkerExpr`. -/
-def parseMarkerExpr (sv : Semver) : Nat → Bytes → Outcome (Marker × Bytes)
-  | 0, _ => .panic "fuel"
+def parseMarkerExpr (sv : Semver) : Nat → Bytes → Fuelled (Marker × Bytes)
+  | 0, _ => .outOfFuel
   | fuel + 1, s =>
     let s := skipWsp s
     match accept [40] s with                          -- "("
     | some s => do
       let (m, s) ← parseMarkerOr sv fuel s
       match accept [41] s with                        -- ")"
-      | none => .err
+      | none => .done .err
       | some s => pure (m, s)
-    | none => do
-      let (l, s) ← parseMarkerVar sv s
-      let (o, s) ← parseMarkerOp s
-      let (r, s) ← parseMarkerVar sv s
-      let e ← mkExpr sv o l r
-      pure (e, s)
+    | none => .done (parseLeaf sv s)
 end
 
 /-- `parseMarker`. -/
 def parseMarker (sv : Semver) (raw : Bytes) : Outcome Marker :=
   match parseMarkerOr sv (3 * raw.length + 3) raw with
-  | .ok (m, []) => .ok m
-  | .ok (_, _ :: _) => .err                           -- p.pos < len(p.input): expected EOF
-  | .err => .err
-  | .panic p => .panic p
+  | .done (.ok (m, [])) => .ok m
+  | .done (.ok (_, _ :: _)) => .err                   -- p.pos < len(p.input): expected EOF
+  | .done .err => .err
+  | .done (.panic p) => .panic p
+  | .outOfFuel => .panic "model: out of fuel (unreachable)"
 
 /-- `Eval`. Go's `&&`/`||` short-circuit; the `default: panic(...)` of the string switch is a
 checked site (`Props.C16.eval_parsed_no_panic`: unreachable for parsed markers). -/
